@@ -76,8 +76,37 @@ func ddlVariant(st sq.State, variant string) ([]string, bool) {
 		}
 		rest[tn] = nt
 	}
+	// checks as column constraints of column a (more column definitions, with their quoted defaults, follow them in the stored text)
+	colchk := map[string]string{}
+	for tn, t := range rest {
+		if len(t.Chk) == 0 {
+			continue
+		}
+		var cs []string
+		for _, k := range t.Chk {
+			if k.Name != "" {
+				cs = append(cs, "CONSTRAINT "+k.Name+" CHECK "+sq.ExprText(k.Expr))
+			} else {
+				cs = append(cs, "CHECK "+sq.ExprText(k.Expr))
+			}
+		}
+		colchk[tn] = strings.Join(cs, " ")
+		t.Chk = []sq.Chk{}
+		rest[tn] = t
+		used = true
+	}
 	stmts := sq.DDL(rest)
 	for i, s := range stmts {
+		for tn, cc := range colchk {
+			if strings.HasPrefix(s, "CREATE TABLE "+tn+" (a ") {
+				j := strings.Index(s, ",")
+				if j < 0 || strings.Contains(s[:j], "(") && !strings.Contains(s[:j], ")") {
+					j = strings.LastIndex(s, ")")
+				}
+				stmts[i] = s[:j] + " " + cc + s[j:]
+				s = stmts[i]
+			}
+		}
 		for tn, us := range inline {
 			if strings.HasPrefix(s, "CREATE TABLE "+tn+" (") {
 				j := strings.LastIndex(s, ")")
